@@ -34,8 +34,8 @@ import (
 	"github.com/dadrus/heimdall/internal/keystore"
 	"github.com/dadrus/heimdall/internal/x"
 	"github.com/dadrus/heimdall/internal/x/errorchain"
+	"github.com/dadrus/heimdall/internal/x/hashx"
 	"github.com/dadrus/heimdall/internal/x/pkix"
-	"github.com/dadrus/heimdall/internal/x/stringx"
 )
 
 type KeyStore struct {
@@ -174,22 +174,19 @@ func (s *HTTPMessageSignatures) Keys() []jose.JSONWebKey {
 func (s *HTTPMessageSignatures) Hash() []byte {
 	const int64BytesCount = 8
 
-	hash := sha256.New()
-	hash.Write(stringx.ToBytes(s.Label))
-
-	for _, component := range s.Components {
-		hash.Write(stringx.ToBytes(component))
-	}
+	var ttlBytes []byte
 
 	if s.TTL != nil {
-		ttlBytes := make([]byte, int64BytesCount)
+		ttlBytes = make([]byte, int64BytesCount)
 		binary.LittleEndian.PutUint64(ttlBytes, uint64(*s.TTL))
-
-		hash.Write(ttlBytes)
 	}
 
-	hash.Write(stringx.ToBytes(s.Signer.Name))
-	hash.Write(stringx.ToBytes(s.Signer.KeyID))
+	hash := sha256.New()
+	hashx.WriteString(hash, s.Label)
+	hashx.WriteStrings(hash, s.Components)
+	hashx.WriteBytes(hash, ttlBytes)
+	hashx.WriteString(hash, s.Signer.Name)
+	hashx.WriteString(hash, s.Signer.KeyID)
 
 	return hash.Sum(nil)
 }
